@@ -384,7 +384,7 @@ func (h *hist) c13Check(op Op) bool {
 	}
 	touched := func(p string) bool {
 		switch op.K {
-		case "remove", "removeall", "rename", "opmove", "opdelete", "latewrite":
+		case "remove", "removeall", "rename", "opmove", "opdelete", "latewrite", "lateattr":
 			for _, x := range []string{op.A, op.B} {
 				if x != "" && (p == x || strings.HasPrefix(p, x+"/")) {
 					return true
@@ -1238,7 +1238,7 @@ func seqRun(prop, tier string, c Case, w *Worker) (res Result) {
 func init() {
 	register(&Engine{Name: "seqhist", Props: []string{"C01", "C02", "C04", "C05", "C07", "C12", "C13"}, Cases: seqCases, Run: seqRun})
 	histRule := "one generated call history per case on a fresh instance (name universe with SQL wildcards, dots, spaces, non-ASCII, >100-byte and codec-looking components; reuse of names forced; contents from the size classes around block and record boundaries); the monitor runs after every call; non-trivial = at least 3 successful mutating calls and at least 4 records on the tape; distinct = distinct (configuration, call list); one batched Archive call in 8 (and one Update call in 8, which then is a batch of 2-3 files) has a member whose source cannot be opened when its turn comes: the call fails part-way, what it completely wrote before must be on the tape (block aligned, iterable) AND in the index, nothing of the rest"
-	propMeta["C02"] = PropMeta{Level: "exploration", Rule: histRule + "; C02 monitor: outcome, returned data and full tree (kinds, sizes, contents, permission bits, owners, timestamps) against a POSIX reference model that is itself validated against afero.OsFs; plus the composite call 'latewrite' (a handle is opened and left idle, another handle rewrites the file and closes, the idle handle then writes and closes: shared-file semantics of the reference), one sparse file of more than 2^31 bytes, and in a fifth of the histories every 1st-4th call is made by a NEW instance over the same tape and index (restart)",
+	propMeta["C02"] = PropMeta{Level: "exploration", Rule: histRule + "; C02 monitor: outcome, returned data and full tree (kinds, sizes, contents, permission bits, owners, timestamps) against a POSIX reference model that is itself validated against afero.OsFs; plus the composite call 'latewrite' (a handle is opened and left idle, another handle rewrites the file and closes, the idle handle then writes and closes: shared-file semantics of the reference) and the composite call 'lateattr' (a handle is opened, the entry's mode / owner is changed through the filesystem, the handle then writes and closes: the flush must keep the new attributes), one sparse file of more than 2^31 bytes, and in a fifth of the histories every 1st-4th call is made by a NEW instance over the same tape and index (restart)",
 		Assumptions: []string{"reference-ambiguous shapes (rename of a directory onto an empty directory or onto itself, RemoveAll through a file) accept either outcome", "op shapes of the open findings listed in KNOWN_FINDINGS.txt are generated only by their dedicated witness cases", "symlinks and operations on the root itself are outside the generator"}}
 	propMeta["C01"] = PropMeta{Level: "exploration", Rule: histRule + "; C01 monitor: tree+content through (a) a fresh instance over a copy of the index and (b) a fresh instance that rebuilds the index from a copy of the tape alone, both equal to the live instance after every call; histories include symlinks and batched Archive/Update/Delete/Move; exotic histories also set times with years 2..9999 and in zones whose offset has seconds, entries carry the full time where int64 nanoseconds cannot",
 		Assumptions: []string{"'fresh process' is approximated by a fresh object graph in the same process over copies of the files; File.Name() is not part of the compared tree"}}
